@@ -90,7 +90,7 @@ def panic_kind(t):
         return 'unimplemented'
     if 'unreachable' in macs or any(m and 'unreachable code' in m for m in msgs):
         return 'unreachable'
-    if any(m in macs for m in ('assert', 'assert_eq', 'assert_ne', 'debug_assert')):
+    if any('assert' in m for m in macs) or 'assert_failed' in n or any(m and m.startswith('assertion failed') for m in msgs):
         return 'assert'
     return 'panic'
 
